@@ -595,10 +595,67 @@ pub fn small_sources(rng: &mut Rng, variants: usize) -> Vec<Source> {
   out
 }
 
+/// Hand-written documents with the rules that go with them, run before the corpus: shapes the corpus
+/// does not contain often enough for a shape-derived rule to hit them —
+/// * a multi variable `$$$A` used twice where the occurrence tried FIRST captures nothing and a later
+///   one captures something (and every other combination): coherence of repeated multi captures;
+/// * lines whose prefix is mostly 4-byte characters: character columns of `range` rules.
+pub fn rule_witnesses() -> Vec<(Source, Vec<Value>)> {
+  let calls = "f(g(), h(1))\nf(g(1), h(1))\nf(g(), h())\nf(g(1), h())\nf(g(1, 2), h(1, 2))\nf(g(1, 2), h(1))\nf(g(1), h(1, 2))\n";
+  let call_rules = |call_kind: &str| -> Vec<Value> {
+    vec![
+      json!({"pattern": "f(g($$$A), h($$$A))"}),
+      json!({"pattern": "f(h($$$A), g($$$A))"}),
+      json!({"pattern": "f(g($$$A), $B)", "has": {"pattern": "h($$$A)", "stopBy": "end"}}),
+      json!({"kind": call_kind, "all": [{"has": {"pattern": "g($$$A)", "stopBy": "end"}}, {"has": {"pattern": "h($$$A)", "stopBy": "end"}}]}),
+      json!({"kind": call_kind, "all": [{"has": {"pattern": "h($$$A)", "stopBy": "end"}}, {"has": {"pattern": "g($$$A)", "stopBy": "end"}}]}),
+      json!({"kind": call_kind, "has": {"pattern": "g($$$A)", "stopBy": "end"}, "not": {"has": {"pattern": "h($$$A)", "stopBy": "end"}}}),
+      json!({"pattern": "g($$$A)", "precedes": {"pattern": "h($$$A)"}}),
+      json!({"pattern": "h($$$A)", "follows": {"pattern": "g($$$A)"}}),
+      json!({"pattern": "f($X, $Y)", "all": [{"has": {"pattern": "g($$$A)"}}, {"has": {"pattern": "h($$$B)"}}, {"any": [{"has": {"pattern": "h($$$A)"}}, {"has": {"pattern": "g($$$B)"}}]}]}),
+    ]
+  };
+  let src = |lang: SupportLang, name: &str, text: String| Source { lang, name: format!("witness/{name}"), text };
+  let mut out = vec![
+    (src(SupportLang::JavaScript, "multi-empty.js", calls.to_string()), call_rules("call_expression")),
+    (src(SupportLang::TypeScript, "multi-empty.ts", calls.to_string()), call_rules("call_expression")),
+    (src(SupportLang::Python, "multi-empty.py", format!("{calls}[f(), g(1)]\n[f(2), g(2)]\n[f(), g()]\n")), {
+      let mut r = call_rules("call");
+      r.push(json!({"kind": "list", "all": [{"has": {"pattern": "f($$$A)"}}, {"has": {"pattern": "g($$$A)"}}]}));
+      r
+    }),
+    (src(SupportLang::Rust, "multi-empty.rs", format!("fn m() {{\n{}}}\n", calls.replace('\n', ";\n"))), call_rules("call_expression")),
+    (src(SupportLang::Go, "multi-empty.go", format!("package p\nfunc m() {{\n{calls}}}\n")), call_rules("call_expression")),
+    (src(SupportLang::Ruby, "multi-empty.rb", calls.to_string()), call_rules("call")),
+  ];
+  // astral lines: a `kind` + `range` rule for every named node is added by the caller
+  out.push((src(SupportLang::Python, "astral.py", "𝒳 = 1\nx = '🦄🦄🦄'\n𝒳𝒳𝒳 = 𝒳 + 𝒳𝒳\ny = ['😀😀😀😀', '𝒳é中a']\n".into()), vec![]));
+  out.push((src(SupportLang::JavaScript, "astral.js", "'🦄🦄🦄'\nlet 𝒳 = '😀😀😀😀' + '𝒳𝒳'\n𝒳𝒳(𝒳, '🦄')\n".into()), vec![]));
+  out.push((src(SupportLang::Rust, "astral.rs", "fn m() {\n  let a = \"😀😀😀😀\";\n  (\"🦄🦄🦄\", '🦄', \"𝒳é中a\");\n}\n".into()), vec![]));
+  out
+}
+
+/// `kind` + `range` rules for (up to `cap`) named nodes of a document, the positions taken from the
+/// nodes themselves
+fn range_rules(root: &N, cap: usize) -> Vec<Value> {
+  root
+    .dfs()
+    .filter(|n| n.is_named() && !n.kind().is_empty())
+    .take(cap)
+    .map(|n| {
+      let (s, e) = (n.start_pos(), n.end_pos());
+      json!({"kind": n.kind(), "range": {"start": {"line": s.line(), "column": s.column(&n)}, "end": {"line": e.line(), "column": e.column(&n)}}})
+    })
+    .collect()
+}
+
 pub fn rules_unit(ctx: &Ctx, rng: &mut Rng, o: &mut Out, share_vars: bool) {
   let variants = if ctx.thorough { 16 } else { 4 };
   let rules_per_src = if ctx.thorough { 60 } else { 30 };
-  let sources = small_sources(rng, variants);
+  let witnesses = rule_witnesses();
+  let mut witness_rules: std::collections::HashMap<String, Vec<Value>> = witnesses.iter().map(|(s, r)| (s.name.clone(), r.clone())).collect();
+  let mut sources: Vec<Source> = witnesses.into_iter().map(|(s, _)| s).collect();
+  sources.extend(small_sources(rng, variants));
   let mut loaded = 0usize;
   let mut rejected = 0usize;
   let mut excluded = 0usize;
@@ -618,7 +675,16 @@ pub fn rules_unit(ctx: &Ctx, rng: &mut Rng, o: &mut Out, share_vars: bool) {
     let tid = format!("R{si}");
     let ids = register_tree(o, &tid, src, &root);
     let m = harvest(&root, src.lang, rng);
-    let derived = battery(&root, src.lang, &m, rng, share_vars, rules_per_src / 2);
+    let mut derived = battery(&root, src.lang, &m, rng, share_vars, rules_per_src / 2);
+    if let Some(mut w) = witness_rules.remove(&src.name) {
+      if src.name.contains("astral") {
+        w.extend(range_rules(&root, 60));
+      }
+      // (a rule core document: the rule object under `rule`)
+      let mut w: Vec<Value> = w.into_iter().map(|r| json!({"rule": r})).collect();
+      w.extend(derived);
+      derived = w;
+    }
     let n_derived = derived.len();
     let mut derived = derived.into_iter();
     for _ in 0..rules_per_src + n_derived {
@@ -635,6 +701,17 @@ pub fn rules_unit(ctx: &Ctx, rng: &mut Rng, o: &mut Out, share_vars: bool) {
         }
       };
       loaded += 1;
+      // glue the model never sees (it is handed the strictness the implementation parsed): every
+      // pattern atom of the loaded rule carries the strictness its text asks for
+      {
+        let mut want = vec![];
+        crate::ruledump::spec_strictness(&spec, &mut want);
+        want.sort();
+        let got = crate::ruledump::core_strictness(&core);
+        if want != got {
+          o.oracle("rule-strictness", false, json!({"fp": format!("loaded rule: strictness of pattern atoms differs from the rule text (text {:?}, loaded {:?})", want, got), "spec": spec, "lang": src.lang.to_string()}));
+        }
+      }
       let mut rx = Regexes::default();
       let dump = dump_core(&core, &mut rx, true);
       let rxt = regex_table(&rx, &all, &ids);
